@@ -4,3 +4,4 @@ import EpsicModel.Jones
 import EpsicModel.Vec
 import EpsicModel.Quat
 import EpsicModel.Pauli
+import EpsicModel.Alias
